@@ -288,7 +288,7 @@ RunResult run(J const &plan) {
   e.reset();
   res.nontrivial = !expect.empty();
   res.class_hash = fnv_str(kinds, fnv_str(plan.at("scenario").at("template").as_str(), 6));
-  res.counters["probe.resumes"] += nres;
+  res.counters["probe.resumes"] += nres; res.counters["fault.stop_and_resume"] += nres;
   res.fingerprint = fp;
   if (res.violation) res.features = plan.at("scenario").at("template").as_str();
   sim.finish(res);
